@@ -746,7 +746,16 @@ to `/repo` itself, checked, and undone (`tools/seed_confirm.sh`, recorded in
   not reported and then fixed - `rSampleSlice` shuffling the caller's slice (C19-r11m1)
   on top of the refactoring that hands `swappable[T](a).swap` to `r.Shuffle` (C19-r22):
   the effects analysis of `C19.param-effects` now follows a method value bound to the
-  argument (the method writes through its receiver). One of the new rules is stricter than the property: `C19.std-namesake-forwarders`
+  argument (the method writes through its receiver). With the 60 seeds of round 10
+  (1,890 compositions) two more gaps showed and were closed: the separator read
+  behind the rewrite of the left half in `overfill` (C03-r10m1) went unreported where
+  the separator is handed to `growRoot` / `insertSeparator` helpers instead of being
+  stored into the fresh root on the spot (C03-r5, C03-r35) - every entry read through
+  the view that is not simply copied down into the left half now counts as a read that
+  must come first; and `runsInnerIterator.Next` pulling without the `Peek` (C07-r10m2)
+  where `inner` is kept as `*peekable[T]` (C07-r39) - a pull through a field is the
+  same pull as a static method call. Rounds 2-9 have not been composed yet.
+  One of the new rules is stricter than the property: `C19.std-namesake-forwarders`
   would also report a *correct* shortcut in front of the forwarded call (`if len(s) == 0
   { return -1 }` in `Index`); none of the kept refactorings of C19 has one.
 
